@@ -48,3 +48,16 @@ inline int uses_rand() { return std::rand(); }
 
 template struct WithStatics<double>;
 }  // namespace SpectraControl
+
+// direct reductions inside a "factorization" (C03-D2 / C07-D1 positive control)
+#include <Eigen/Core>
+namespace SpectraControl {
+struct DirectReductions
+{
+    Eigen::VectorXd f;
+    Eigen::MatrixXd V;
+    double a() { return f.norm(); }
+    double b(const Eigen::VectorXd& w) { return f.dot(w); }
+    Eigen::VectorXd c() { return V.adjoint() * f; }
+};
+}  // namespace SpectraControl
